@@ -90,7 +90,7 @@ TrTL ==
             /\ Ev.xa = x /\ Ev.tr = t
 
 (* an attempt that found every rate zero *)
-TrZero == IsEvent("Zero") /\ Ev.xb = x /\ ZeroRatesStop
+TrZero == IsEvent("Zero") /\ Ev.xb = x /\ (ZeroRatesStop \/ TLZeroFallback)
 
 (* the loop of _jump has ended *)
 TrEnd ==
@@ -125,6 +125,8 @@ TraceSpec == TraceInit /\ [][TraceNext]_tvars
 (* progress report: the harness takes, per run, the largest l printed; a run is accepted iff it reaches NEvts + 1 *)
 Progress == PrintT(<<"AT", tid, l, NEvts + 1>>)
 
+(* per-state forms of the Jump invariants (the whole path is compared once, in TrReturn) *)
+InLimitsNow == InLim(x)
 ClosedModel == Tr.closed
-TraceConservation == ClosedModel => (ColumnsZero /\ Conservation)
+TraceConservation == ClosedModel => (ColumnsZero /\ Total(x) = Total(run.x0))
 =============================================================================
